@@ -13,8 +13,18 @@ Driver for C15 (sg-splits + cw4-group + bank). One output line per input line.
   (`order` = witness: the denoms `query_all_balances` returns, in the bank's order; rejected ⇒ `bad-witness`)
 * `q_members start=<a|-> limit=<n|->`                           → `ok <a:w,…|->`
 * `q_member addr=<a>`                                           → `ok <w|->`
+* `exec_raw sender=<a> funds=<d:n,…|-> v=<variant> k=<n>`       → `raw <obs> ## err …` (an execute message the contract does not have)
+* `migrate sender=<a> from=<same|old|newer|other>`              → `mig <obs>` (ok/err is the environment's: wasm admin, cw2 version)
 
-`<obs>` = `sadmin=<a|-> gadmin=<a|-> total=<n> members=<a:w,…|-> bank=<a:d:n,…|->`.
+Any line may carry `hold=1` (the harness does not advance the block after it); the model has no clock and ignores it.
+
+Projection (` ## `, see docs/HARNESS.md): what C15 constrains is BEFORE ` ## `:
+`<obs>` = `sadmin=<a|-> total=<n> members=<a:w,…|-> bank=<a:d:n,…|->` and, for `distribute`,
+`paid=<to:d:n,…|->` = what every account other than the contract gained, one entry per (recipient, denom), sorted —
+the order of the bank messages, their grouping and the payments the contract addresses to itself are NOT constrained
+by the property. BEHIND ` ## `: `gadmin=` (cw4-group's own admin), `msgs=` (the messages in emission order), the
+ok/err of `exec_raw`, and the answer of every `q_members` other than the one `execute_distribute` itself makes
+(`start=- limit=30`): cw4-group's private `DEFAULT_LIMIT`/`MAX_LIMIT` are not C15's.
 -/
 open LP LP.Proto LP.Splits
 
@@ -25,11 +35,14 @@ def renderTriples (l : List (Nat × Nat × Nat)) : String :=
 
 def obs (s : State) : String :=
   let bank := (bankView s.bank).map fun e => (e.1.1, e.1.2, e.2)
-  s!"sadmin={renderOpt s.admin} gadmin={renderOpt s.group.admin} total={s.group.total} members={renderPairs s.group.members} bank={renderTriples bank}"
+  s!"sadmin={renderOpt s.admin} total={s.group.total} members={renderPairs s.group.members} bank={renderTriples bank}"
+
+/-- outside the projection -/
+def obsD (s : State) : String := s!"gadmin={renderOpt s.group.admin}"
 
 def okObs (r : Except Err State) (old : State) : State × String :=
   match r with
-  | .ok s' => (s', s!"ok {obs s'}")
+  | .ok s' => (s', s!"ok {obs s'} ## {obsD s'}")
   | .error _ => (old, "err")
 
 def modeOf (s : String) : Option Mode :=
@@ -45,7 +58,7 @@ def c15Line (st : Option State) (line : String) : Option State × String :=
       let ms ← pairListKv ws "members"
       pure (instantiate m self g admin gadmin ms)
     match r with
-    | some (.ok s) => (some s, s!"case ok {obs s}")
+    | some (.ok s) => (some s, s!"case ok {obs s} ## {obsD s}")
     | some (.error _) => (none, "case err")
     | none => (none, "bad-op")
   else
@@ -87,16 +100,28 @@ def c15Line (st : Option State) (line : String) : Option State × String :=
               match step s (.distribute sd (coinsOf15 fu) denoms order) with
               | .ok s'' =>
                 if s'' == s' then
-                  pure (s', s!"ok msgs={renderTriples (msgs.map fun p => (p.to, p.denom, p.amount))} {obs s'}")
+                  let paid := (paidView s.self msgs).map fun e => (e.1.1, e.1.2, e.2)
+                  pure (s', s!"ok paid={renderTriples paid} {obs s'} ## {obsD s'} msgs={renderTriples (msgs.map fun p => (p.to, p.denom, p.amount))}")
                 else pure (s, "model-inconsistent")
               | .error _ => pure (s, "model-inconsistent")
             | .error _ => pure (s, "err")
         | some "q_members" => do
           let st ← optNatKv ws "start"; let lim ← optNatKv ws "limit"
-          pure (s, s!"ok {renderPairs (listMembers s.group st lim)}")
+          -- only the page `execute_distribute` itself asks for is inside the projection
+          if st == none && lim == some Gen.sg_splits_PAGINATION_LIMIT then
+            pure (s, s!"ok {renderPairs (listMembers s.group st lim)}")
+          else pure (s, s!"ok ## {renderPairs (listMembers s.group st lim)}")
         | some "q_member" => do
           let a ← natKv ws "addr"
           pure (s, s!"ok {renderOpt (lookupM s.group.members a)}")
+        | some "exec_raw" => do
+          let sd ← natKv ws "sender"; let fu ← pairListKv ws "funds"
+          let s' := step' s (.raw sd (coinsOf15 fu))
+          pure (s', s!"raw {obs s'} ## err {obsD s'}")
+        | some "migrate" => do
+          let sd ← natKv ws "sender"
+          let s' := step' s (.migrate sd)
+          pure (s', s!"mig {obs s'}")
         | _ => none
       match r with
       | some (s', o) => (some s', o)
